@@ -1,6 +1,167 @@
-/-! line-protocol handlers (stub: filled in when the suite is built) -/
-namespace Apko.Driver.Sbom
+import Apko.Model.Sbom
+/-!
+line-protocol handlers for corr:sbom (C11).
 
-def handle (_args : List String) : Option String := none
+Encoding (all strings hex, so the separators never occur inside them):
+  list of strings      `.h,.h,.h`
+  package              `id,name,version,alg~val+alg~val`
+  relationship         `element,type,related`
+  document             `describes|pkg;pkg|rel;rel|lic,text;lic,text`
+  sbom directory       `stem=D` (directory) | `stem=J` (unparsable) | `stem=S<document>`, joined by `/`
+  result               `ok:<document>` | `err:<kind>`
+
+  s.id    <hex>                                              value mode
+  s.rep   <document> <a> <b>                                 value mode (Spec: a = b is a no-op)
+  s.copy  <source document> <target document> <todo list>    value mode
+  s.gen   <imageDigest> <layers> <vcs> <osVersion> <apks> <sbomdir> <go result>     verdict mode
+  s.idx   <alg> <hex> <images alg,hex;…> <vcs> <go result>                          verdict mode
+-/
+namespace Apko.Driver.Sbom
+open Apko Apko.Sbom
+
+def splitL (sep : String) (s : String) : List String := if s.isEmpty then [] else s.splitOn sep
+
+/-- list of strings: every item is `.` followed by hex -/
+def parseStrs (s : String) : List Text := (splitL "," s).map fun x => unhexS (x.drop 1).toString
+
+def parsePair (s : String) : Text × Text :=
+  match s.splitOn "~" with
+  | [a, b] => (unhexS a, unhexS b)
+  | _ => ([], [])
+
+def parsePkg (s : String) : Pkg :=
+  match s.splitOn "," with
+  | [i, n, v, c] => ⟨unhexS i, unhexS n, unhexS v, (splitL "+" c).map parsePair⟩
+  | _ => ⟨[], [], [], []⟩
+
+def parseRel (s : String) : Rel :=
+  match s.splitOn "," with
+  | [e, t, r] => ⟨unhexS e, unhexS t, unhexS r⟩
+  | _ => ⟨[], [], []⟩
+
+def parseLic (s : String) : Text × Text :=
+  match s.splitOn "," with
+  | [a, b] => (unhexS a, unhexS b)
+  | _ => ([], [])
+
+def parseDoc (s : String) : Doc :=
+  match s.splitOn "|" with
+  | [d, p, r, l] =>
+    ⟨parseStrs d, (splitL ";" p).map parsePkg, (splitL ";" r).map parseRel,
+     (splitL ";" l).map parseLic⟩
+  | _ => ⟨[], [], [], []⟩
+
+def showPkg (p : Pkg) : String :=
+  s!"{hexS p.id},{hexS p.name},{hexS p.version}," ++
+    "+".intercalate (p.checksums.map fun c => s!"{hexS c.1}~{hexS c.2}")
+
+def showDoc (d : Doc) : String :=
+  ",".intercalate (d.describes.map fun i => "." ++ hexS i) ++ "|" ++
+  ";".intercalate (d.packages.map showPkg) ++ "|" ++
+  ";".intercalate (d.rels.map fun r => s!"{hexS r.element},{hexS r.type},{hexS r.related}") ++ "|" ++
+  ";".intercalate (d.lics.map fun l => s!"{hexS l.1},{hexS l.2}")
+
+def showErr : Err → String
+  | .noLayers => "panic" | .sbomIsDir => "sbom-is-dir" | .missing => "missing-elements"
+  | .licConflict => "license-conflict" | .fuel => "model-out-of-fuel" | .noImages => "no-images"
+
+def showRes : Except Err Doc → String
+  | .ok d => "ok:" ++ showDoc d
+  | .error e => "err:" ++ showErr e
+
+def parseRes (s : String) : Option Doc :=
+  if s.startsWith "ok:" then some (parseDoc (s.drop 3).toString) else none
+
+def parseEntry (s : String) : Text × FsEntry :=
+  match s.splitOn "=" with
+  | [k, v] =>
+    (unhexS k, if v = "D" then .dir else if v = "J" then .junk else .doc (parseDoc (v.drop 1).toString))
+  | _ => ([], .junk)
+
+def parseApk (s : String) : Apk :=
+  match s.splitOn "," with
+  | [n, v, c] => ⟨unhexS n, unhexS v, unhexS c⟩
+  | _ => ⟨[], [], []⟩
+
+def parseHash (s : String) : Hash :=
+  match s.splitOn "," with
+  | [a, h] => ⟨unhexS a, unhexS h⟩
+  | _ => ⟨[], []⟩
+
+/-- all rearrangements of a short list (the possible Go map iteration orders) -/
+def insertAll (x : Id) : List Id → List (List Id)
+  | [] => [[x]]
+  | y :: ys => (x :: y :: ys) :: (insertAll x ys).map (y :: ·)
+
+def permsAux : List Id → List (List Id)
+  | [] => [[]]
+  | x :: xs => (permsAux xs).flatMap (insertAll x)
+
+def perms (l : List Id) : List (List Id) := if l.length > 4 then [l, l.reverse] else permsAux l
+
+/-- the target lists with two or more elements that `Generate` will meet (one per apk with such an SBOM) -/
+def multiLists (o : Opts) (fs : SbomDir) : List (List Id) :=
+  (o.apks.filterMap fun a =>
+    match locate fs (sbomStems a.name a.version) with
+    | .ok (some (.doc emb)) => let ts := targets emb a.name; if ts.length ≥ 2 then some ts else none
+    | _ => none).eraseDups
+
+/-- all ways of choosing one rearrangement per list (capped) -/
+def choices : List (List Id) → List (List (List Id × List Id))
+  | [] => [[]]
+  | l :: rest => ((perms l).flatMap fun p => (choices rest).map fun c => (l, p) :: c).take 64
+
+def ordOf (c : List (List Id × List Id)) (l : List Id) : List Id := (c.lookup l).getD l
+
+def triple (impl spec cls : String) : String := impl ++ "\t" ++ spec ++ "\t" ++ cls
+
+def verdict : Option String → String
+  | none => "pass" | some w => "fail:" ++ w
+
+/-- known-finding class of an oracle failure on an image document (decided from the input) -/
+def classOf (o : Opts) (fs : SbomDir) (why : Option String) : String :=
+  match why with
+  | none => "-"
+  | some "apk-element" =>
+    if idCollision o then "F11a" else if embeddedTarget o fs then "F11c" else "unlisted"
+  | some "dangling-reference" =>
+    if multiTarget o fs then "F11d" else "unlisted"
+  | _ => "unlisted"
+
+def handle (args : List String) : Option String :=
+  match args with
+  | ["s.id", s] =>
+    let t := unhexS s
+    let impl := hexS (stringToIdentifier t)
+    let spec := hexS (Spec.stringToIdentifier t)
+    some <| triple impl spec (if impl = spec then "-" else "unlisted")
+  | ["s.rep", d, a, b] =>
+    let doc := parseDoc d
+    let impl := showDoc (replacePackage doc (unhexS a) (unhexS b))
+    -- Spec: replacing an id by itself changes nothing; otherwise the body of the function
+    let spec := if a = b then showDoc doc else showDoc (replaceBody doc (unhexS a) (unhexS b))
+    some <| triple impl spec (if impl = spec then "-" else "unlisted")
+  | ["s.copy", src, tgt, todo] =>
+    let r := showRes (copyElements (parseDoc src) (parseDoc tgt) (parseStrs todo))
+    some <| triple r r "-"
+  | ["s.gen", dig, layers, vcs, osv, apks, fsS, goRes] =>
+    let o : Opts := ⟨unhexS dig, parseStrs layers, unhexS vcs, unhexS osv,
+                     (splitL ";" apks).map parseApk⟩
+    let fs : SbomDir := (splitL "/" fsS).map parseEntry
+    -- Go ranges over a map of target ids: every assignment of an order to each multi-target list is possible
+    let cands := (choices (multiLists o fs)).map fun c => showRes (generate o fs (ordOf c))
+    let impl := if cands.contains goRes then goRes else cands.headD ""
+    let why := match parseRes goRes with
+      | some d => oracle o fs d
+      | none => none     -- an error is reported, no document is emitted
+    some <| triple impl (verdict why) (classOf o fs why)
+  | ["s.idx", alg, hx, images, vcs, goRes] =>
+    let o : IndexOpts := ⟨⟨unhexS alg, unhexS hx⟩, (splitL ";" images).map parseHash, unhexS vcs⟩
+    let impl := showRes (generateIndex o)
+    let why := match parseRes goRes with
+      | some d => indexOracle o d
+      | none => none
+    some <| triple impl (verdict why) (if why.isNone then "-" else "unlisted")
+  | _ => none
 
 end Apko.Driver.Sbom
